@@ -47,6 +47,7 @@ func (cq *commitQueue) close() bool {
 	if !atomic.CompareAndSwapUint32(&cq.closed, 0, 1) {
 		return false
 	}
+	utils.VerifYield("commitq.close.afterFlag")
 	if cq.ring != nil {
 		cq.ring.Close()
 	}
@@ -239,6 +240,7 @@ func (db *DB) enqueueCommitRequest(cr *commitRequest) error {
 		cq.releaseSpace()
 		return utils.ErrBlockedWrites
 	}
+	utils.VerifYield("commitq.enqueue.beforePush")
 	if !cq.ring.Push(cr) {
 		cq.releaseSpace()
 		return utils.ErrBlockedWrites
